@@ -351,7 +351,7 @@ impl Message {
             1 => ClutterMitigationDecisionStatus::Enabled,
             _ => {
                 let mut segments = Vec::new();
-                for i in 0..5 {
+                for i in 1..=5 {
                     if self.clutter_mitigation_decision_status & (1 << i) != 0 {
                         segments.push(i);
                     }
